@@ -129,12 +129,42 @@ def run_blocked(req):
     nm = norm_levels(req["levels"])
     obs = []
     w = World(nm)
-    th = threading.Thread(target=level_func(*nm[0]), args=(w, 0), daemon=True)
-    # not started yet
-    st = extract(th)
-    if st.frames or st.error is not None:
-        obs.append({"kind": "unstarted_thread", "frames": len(st.frames), "error": repr(st.error)})
-    th.start()
+    tkind = req.get("thread_kind", "target")
+    entry = level_func(*nm[0])
+    if tkind == "target":
+        th = threading.Thread(target=entry, args=(w, 0), daemon=True)
+    elif tkind == "subclass":
+        class Sub(threading.Thread):
+            def run(self):
+                entry(w, 0)
+        th = Sub(daemon=True)
+    elif tkind == "timer":
+        th = threading.Timer(0.0, entry, args=(w, 0))
+        th.daemon = True
+    elif tkind == "raw":
+        # a thread not created through the threading module: its Thread object is the dummy made on first request
+        import _thread
+        box = {}
+
+        def raw_entry():
+            box["t"] = threading.current_thread()
+            box["got"].set()
+            entry(w, 0)
+        box["got"] = threading.Event()
+        th = None
+    else:
+        raise AssertionError(tkind)
+    if th is not None:
+        # not started yet
+        st = extract(th)
+        if st.frames or st.error is not None:
+            obs.append({"kind": "unstarted_thread", "frames": len(st.frames), "error": repr(st.error)})
+        th.start()
+    else:
+        _thread.start_new_thread(raw_entry, ())
+        if not box["got"].wait(30):
+            return {"harness_error": "raw thread did not start"}
+        th = box["t"]
     if not w.ready.wait(30):
         return {"harness_error": "thread did not reach its blocking point"}
     if nm[-1][1] >= 6:
@@ -181,6 +211,10 @@ def run_blocked(req):
                 # frames outward of the harness root are threading internals: hidden; none inward is missing
                 first = st.frames.index(mine[0]) if mine else 0
                 for f in st.frames[:first]:
+                    if f.pyframe.f_code.co_name in ("run", "raw_entry") and f.filename == HERE:
+                        continue    # the harness's own Thread.run override / raw entry point
+                    if tkind == "timer" and f.pyframe.f_code is threading.Timer.run.__code__:
+                        continue    # Timer.run is ordinary library code, not one of the bootstrap frames
                     if not f.hide:
                         obs.append({"kind": "threading_internals_not_hidden", "frame": f.funcname})
                 # the frames are exactly the thread's f_back chain (outermost first)
@@ -201,7 +235,10 @@ def run_blocked(req):
     finally:
         w.go.set()
         w.lock.release()
-        th.join(30)
+        if tkind != "raw":
+            th.join(30)
+    if tkind == "raw":
+        return {"obs": obs[:6], "stats": {"depth": len(nm), "managers": sum(x[0] for x in nm)}}
     st = extract(th)
     if st.frames or st.error is not None:
         obs.append({"kind": "finished_thread", "frames": len(st.frames), "error": repr(st.error)})
